@@ -675,10 +675,10 @@ def main(argv):
         if thorough:
             configs = [(v, app, ssv, fpv) for v in versions for app in (True, False) for (ssv, fpv) in optmatrix]
         else:
-            # every shape at five versions (application mode, default options), one signature-mode version and
-            # three rotating option settings
-            configs = [(v, True, None, None) for v in (2, 4, 6, 9, 10)] + [((3, 8)[si % 2], False, None, None)]
-            configs += [((5, 7, 8, 9, 10)[(si + k) % 5], True) + optmatrix[1 + (si + 3 * k) % 7] for k in range(3)]
+            # every shape at four versions (application mode, default options), one signature-mode version and
+            # two rotating version/option settings
+            configs = [(v, True, None, None) for v in (2, 6, 9, 10)] + [((3, 8)[si % 2], False, None, None)]
+            configs += [((4, 5, 7, 8, 9, 10)[(si + k) % 6], True) + optmatrix[1 + (si + 3 * k) % 7] for k in range(2)]
         for v, app, ssv, fpv in configs:
             run.consider(run_case(pt, model, C20Case(r, v, app, ssv, fpv), measure=(ssv is None and fpv is None)), "small")
     ck.coverage["small_cases_s"] = round(time.time() - t0, 1)
@@ -742,11 +742,15 @@ def main(argv):
     ck.coverage["api_s"] = round(time.time() - t0, 1)
 
     # ---- (2f) complexity probes (deterministic call counts, not timings)
+    t0 = time.time()
     cx = complexity_probes(pt)
     ck.coverage["complexity_probes"] = cx
+    ck.coverage["probes_s"] = round(time.time() - t0, 1)
 
     # ---- (3) worker families + diagnosis of in-process RecursionErrors
+    t0 = time.time()
     wt.join()
+    ck.coverage["waited_for_workers_s"] = round(time.time() - t0, 1)
     wres = worker_out.get("r", [])
     if run.pending_recursion:
         jobs = []
@@ -762,8 +766,10 @@ def main(argv):
             wres.append(dict(r or {"outcome": "worker-died", "job": {}}, case=c.describe(), origin=origin))
         for c, origin in run.pending_recursion[40:]:
             run.crashes.append((c, "compile", origin))
+    t0 = time.time()
     fam = summarize_families(ck, run, wres, model)
     ck.coverage["families"] = fam
+    ck.coverage["families_summary_s"] = round(time.time() - t0, 1)
 
     # ---- (4) known findings replayed against the real code
     replay_known(ck, run, pt, wres, cx)
@@ -933,7 +939,7 @@ def summarize_families(ck, run, wres, model):
     mstats = {"compared": 0}
     for r in wres:
         j = r.get("job", {})
-        if j.get("family") == "long_pop" and (j["n"] <= 400 or (ck.tier == "thorough" and j["n"] <= 1000)) and r.get("outcome") in ("teal", "crash"):
+        if j.get("family") == "long_pop" and (j["n"] <= 200 or (ck.tier == "thorough" and j["n"] <= 1000)) and r.get("outcome") in ("teal", "crash"):
             n = j["n"]
             prog = "(prog (seq " + " ".join('(op "pop" () n ((op "int" (%d) u ())))' % i for i in range(n)) + ' (exit (op "int" (1) u ()))) (subs ) (slots ))'
             o = wire_opts(j["version"], True, None, None)
@@ -952,7 +958,8 @@ def summarize_families(ck, run, wres, model):
     # the 256-slot boundary against the model (n variables stored once each: below the recursion limit)
     for r in wres:
         j = r.get("job", {})
-        if j.get("family") == "many_stores" and r.get("outcome") in ("teal", "pyteal", "crash"):
+        if j.get("family") == "many_stores" and r.get("outcome") in ("teal", "pyteal", "crash") and \
+                (ck.tier == "thorough" or (j["n"] in (255, 256, 257) and (j["version"] == 6 or j["n"] != 255))):
             n = j["n"]
             prog = "(prog (seq " + " ".join('(op "store" ((slot %d)) n ((op "int" (%d) u ())))' % (256 + i, i) for i in range(n)) + \
                 ' (exit (op "int" (1) u ()))) (subs ) (slots ' + " ".join("(%d %d false)" % (256 + i, 256 + i) for i in range(n)) + "))"
@@ -1002,9 +1009,9 @@ def api_variants(run, shapes, rng, thorough):
 
     def note(k):
         stats[k] = stats.get(k, 0) + 1
-    sample = shapes if thorough else rng.sample(shapes, min(len(shapes), 110))
+    sample = shapes if thorough else rng.sample(shapes, min(len(shapes), 80))
     for r in sample:
-        for v in ((2, 3, 6, 9) if not thorough else range(2, 11)):
+        for v in ((2, 6, 9) if not thorough else range(2, 11)):
             b = Builder(pt)
             rb = real_call(pt, lambda: b.build(r))
             if rb["outcome"] != "ok":
@@ -1038,8 +1045,9 @@ def api_variants(run, shapes, rng, thorough):
     # routers
     router_crashes = {}
     for name, mk in router_cases(pt):
-        for v in (5, 6, 7, 8, 9, 10):
-            for opt in (None, True):
+        big = name.endswith("-20")
+        for v in ((5, 6, 7, 8, 9, 10) if (thorough or not big) else (6, 8, 10)):
+            for opt in ((None, True) if (thorough or not big) else (None,)):
                 def go():
                     r = mk()
                     return r.compile_program(version=v, optimize=(pt.OptimizeOptions(scratch_slots=True) if opt else None))
